@@ -174,3 +174,41 @@ def acceptable_statuses(status, primary_cls, cleanup_cls):
             c = 'XFAIL'
         out.add(c)
     return out
+
+
+def executed_items(case, status, act_mode, primary_loc, failing_cleanup_ids=()):
+    """Items (of any kind, in execution order) whose main step runs, as (phase, index, item); 'act' appears as
+    (('act', 0, None)) when act execute is reached.  Includes the item at which execution stops."""
+    out = []
+    stop = primary_loc
+
+    def mains(phase, rank):
+        for i, item in enumerate(case.get(phase) or []):
+            out.append((phase, i, item))
+            if stop is not None and stop[0] == rank and stop[2] == i:
+                return True
+        return False
+
+    def cleanup():
+        for i, item in enumerate(case.get('cleanup') or []):
+            out.append(('cleanup', i, item))
+            if item.get('id') in failing_cleanup_ids:
+                break
+
+    if mains('conf', 0):
+        return out
+    if (stop is not None and stop[0] <= 3) or status == 'SKIP':
+        return out
+    if mains('setup', 4) or (stop is not None and stop[0] in (5, 6)):
+        cleanup()
+        return out
+    out.append(('act', 0, None))
+    if (stop is not None and stop[0] == 7) or act_mode:
+        cleanup()
+        return out
+    if mains('before-assert', 8):
+        cleanup()
+        return out
+    mains('assert', 9)
+    cleanup()
+    return out
